@@ -10,7 +10,7 @@ import contracts.postoffice as PO
 import contracts.standins_iter as B8
 import contracts.getiter as GI
 
-PROVED = [CP.do_compute_1, CP.do_compute_2, P.fix_output_chunk, P.fix_output_other, CH.chunk_split, CH.split_array,
+PROVED = [CP.do_compute_1, CP.do_compute_2, CP.fetch_chunk, P.fix_output_chunk, P.fix_output_other, CH.chunk_split, CH.split_array,
           CH.continuity_check, PR.tmp_init, PO.spy_save_chunk, PO.spy_receive, PO.spy_close, PO.ack_msg_produced, PO.message_may_come, PO.post_office_read, GI.get_iter]
 
 PROPERTY = Property(
